@@ -64,10 +64,10 @@ fn gen_impl_display_trait(
 ) -> TokenStream {
     let match_arms = validators.iter().map(|validator| match validator {
         StringValidator::LenCharMax(len_char_max) => quote! {
-             #error_type_path::LenCharMaxViolated => write!(f, "{} is too long. The value length must be at most {:#?} character(s).", stringify!(#type_name), #len_char_max)
+             #error_type_path::LenCharMaxViolated => write!(f, "{} is too long. The value length must be at most {:#?} character(s).", stringify!(#type_name), { let bound: usize = #len_char_max; bound })
         },
         StringValidator::LenCharMin(len_char_min) => quote! {
-             #error_type_path::LenCharMinViolated => write!(f, "{} is too short. The value length must be at least {:#?} character(s).", stringify!(#type_name), #len_char_min)
+             #error_type_path::LenCharMinViolated => write!(f, "{} is too short. The value length must be at least {:#?} character(s).", stringify!(#type_name), { let bound: usize = #len_char_min; bound })
         },
         StringValidator::NotEmpty => quote! {
              #error_type_path::NotEmptyViolated => write!(f, "{} is empty.", stringify!(#type_name))
